@@ -5,9 +5,9 @@ from checks import lib, nsfam
 
 def fn(ck, a):
     if ck.tier == "thorough":
-        nsfam.run(ck, ["C09."], ns_ops=0, sim=None, probes_n=3, probe_sample=None)
+        nsfam.run(ck, ["C09."], ns_ops=0, sim=None, probes_n=4, probe_sample=None)
     else:
-        nsfam.run(ck, ["C09."], ns_ops=0, sim=None, probes_n=2, probe_sample=2100)
+        nsfam.run(ck, ["C09."], ns_ops=0, sim=None, probes_n=3, probe_sample=9000)
     ck.cov["rule"] = ("cases = (mailbox name, command slot, encoding) probes: TLC enumerates every name of <= MaxComps components "
                       "over {a, b, .., ., empty} with 0..2 leading slashes (spec/NsProbes.tla) and classifies it with "
                       "NsProps.Escapes; each is sent in 15 command slots x 3 encodings to the real server running in a jail "
